@@ -95,6 +95,9 @@ def def_sol(formula, display=True, log=False, params={}):
         ub = formula.ub.copy()
         lb[bool_bin] = np.maximum(lb[bool_bin], 0)
         ub[bool_bin] = np.minimum(ub[bool_bin], 1)
+        bool_int = (vtype != 'C')
+        lb[bool_int] = np.ceil(lb[bool_int] - 1e-9)
+        ub[bool_int] = np.floor(ub[bool_int] + 1e-9)
 
         integrality = np.zeros(A.shape[1])
         integrality[vtype != 'C'] = 1
